@@ -178,4 +178,6 @@ def run(chk, ctx):
     from . import round3
     round3.list_executions_exact(chk, ctx)
     round3.start_resets_record(chk, ctx)
+    from . import c15
+    c15.r3(chk, ctx)                         # the input reported at the end of an execution / of a child is the input it was started with
     chk.assume("json.dumps is deterministic for a given object; the topic producer delivers what it is given (C19)")
